@@ -166,6 +166,23 @@ def stmt(o, s, ind):
                 text += " " + p
             prev = it
         o.emit(text, sid, ind)
+    elif k == "if" and s.get("oneline"):
+        def inline(stmts):
+            tmp = Out()
+            for x in stmts:
+                stmt(tmp, x, 0)
+            return " : ".join(tmp.lines), [x.get("id") for x in stmts]
+        t1, ids1 = inline(s["arms"][0]["body"])
+        text = "IF " + expr(s["arms"][0]["c"]) + " THEN " + t1
+        ids = ids1
+        if s.get("els"):
+            t2, ids2 = inline(s["els"])
+            text += " ELSE " + t2
+            ids += ids2
+        row = o.emit(text, sid, ind)
+        for i in ids:
+            if i is not None:
+                o.rows.setdefault(i, row)
     elif k == "if":
         for j, arm in enumerate(s["arms"]):
             kw = "IF " if j == 0 else "ELSEIF "
